@@ -126,13 +126,18 @@ T_ProbeClean == probe.act = "probe" => probe.n = 0
 RealFixpoint == probe.act = "drain" /\ (probe.quiet \/ probe.spin) /\ ~probe.overrun /\ up /\ infl = EmptyFn
 \* the real controllers come to rest: a drain of the real work sets (1500 reconciles) ends at a fixed point
 T_DrainTerminates == ~probe.overrun
+\* once the real controllers are at rest, a target whose master connection is alive has been re-synchronized: the
+\* re-push of what was applied cannot be refused (only accepted values are ever recorded as applied)
+T_SyncCompletes == RealFixpoint => \A t \in DOMAIN cfgs :
+                      (cfgs[t].master # "" /\ MasterConn(Pack, cfgs[t], t) # NoId /\ failq[t] = << >>) =>
+                          (cfgs[t].state = "SYNCHRONIZED" /\ cfgs[t].aterm = cfgs[t].term)
 TStable == Stable \/ RealFixpoint
 
 StateNames == {"C01_NoPartialCommit", "C01_FailedNeverMerged", "C01_AtomicAtQuiescence", "C01_CommittedIsReadable",
                "C01_ReportedFailed", "C02_MergeOrdered", "C02_ApplyOrdered", "C02_ApplyAfterPredecessors",
                "C02_ApplyOnlyMerged", "C04_Converged", "C05_ValidatedBeforeMerged", "C05_ValidatedIsReadable",
                "C05_RejectedChangesNothing", "C06_RollbackRestores", "C06_RollbackRefused", "C07_MergedOnce",
-               "C07_NoneSkipped", "C07_NotBlocked", "C06_RollbackCompletes", "C09_ComesToRest", "C07_DeviceConverged", "C07_SameDecision", "C07_SameConfiguration", "C08_TruthfulSuccess",
+               "C07_NoneSkipped", "C07_NotBlocked", "C06_RollbackCompletes", "C09_ComesToRest", "C04_ComesToRest", "C04_SyncCompletes", "C07_DeviceConverged", "C07_SameDecision", "C07_SameConfiguration", "C08_TruthfulSuccess",
                "C08_TruthfulFailure", "C08_NoHang", "C08_ResponseContent", "C09_QuiescentIsFixpoint",
                "C09_AllTerminal", "C09_ProbeClean", "C10_OneMasterPerTerm", "C11_OnlyRealRefusalsFail",
                "C11_TxReportsClass", "C11_RefusalFails", "C03_GetIsLiveView"}
@@ -159,6 +164,8 @@ StateClause(name) ==
       [] name = "C07_SameConfiguration" -> C07_SameConfigurationAt(TStable)
       [] name = "C07_NotBlocked" -> C07_NotBlockedAt(TStable) /\ T_DrainTerminates
       [] name = "C06_RollbackCompletes" -> T_DrainTerminates
+      [] name = "C04_ComesToRest" -> T_DrainTerminates
+      [] name = "C04_SyncCompletes" -> T_SyncCompletes
       [] name = "C09_ComesToRest" -> T_DrainTerminates
       [] name = "C07_DeviceConverged" -> C07_DeviceConvergedAt(TStable)
       [] name = "C08_TruthfulSuccess" -> C08_TruthfulSuccess
